@@ -7,6 +7,8 @@ package main
 import (
 	"context"
 	"fmt"
+	"github.com/tdakkota/docker-logql/internal/logql"
+	"regexp"
 	"sort"
 	"strings"
 
@@ -91,6 +93,15 @@ func attrsString(a otelstorage.Attrs) string {
 	return strings.Join(kv, ",")
 }
 
+// selectPre, when non-nil, makes runSelect answer an earlier selection on the same Querier first (matching only the
+// containers whose index is in Only, read for Drain records, then closed): state left behind by a previous query.
+type selectPreT struct {
+	Only  string // regex over container names
+	Drain int
+}
+
+var selectPre *selectPreT
+
 // runSelect executes Querier.SelectLogs + a full drain + Close over a fresh fake client
 // under a fresh cooperative scheduler.
 func runSelect(c *vsched.Ctx, ctrs []fakedocker.Container, perm []int, params logqlengine.SelectLogsParams, start, end otelstorage.Timestamp, withLabels bool, plan fakedocker.ReadPlan) (selectObs, *fakedocker.Fake) {
@@ -119,6 +130,21 @@ func runSelect(c *vsched.Ctx, ctrs []fakedocker.Container, perm []int, params lo
 		if err != nil {
 			obs.Err = "new querier: " + err.Error()
 			return
+		}
+		if pre := selectPre; pre != nil {
+			gg := g
+			g = nil // the earlier query runs ungated
+			re, _ := regexp.Compile("^(?:" + pre.Only + ")$")
+			pit, perr := q.SelectLogs(context.Background(), start, end, logqlengine.SelectLogsParams{Labels: []logql.LabelMatcher{{Label: "container", Op: logql.OpRe, Value: pre.Only, Re: re}}})
+			if perr == nil {
+				var prec logstorage.Record
+				for k := 0; k < pre.Drain && pit.Next(&prec); k++ {
+				}
+				_ = pit.Close()
+			}
+			fake.Calls, fake.OpenOrder = nil, nil
+			fake.Opened, fake.Closed, fake.ReadBytes = make([]int, len(ctrs)), make([]int, len(ctrs)), make([]int, len(ctrs))
+			g = gg
 		}
 		iter, err := q.SelectLogs(context.Background(), start, end, params)
 		if err != nil {
